@@ -57,6 +57,25 @@ PROPS = {
                         "Python wrappers hand the C routine a C-contiguous float32 array of nk*nth cells with ihmax >= 1 (obligations of partition.watershed)"],
         "technique": "contract-based deductive verification (PySE no-exception obligations; C VCs from clang's AST) + sanitizer-checked bounded enumeration for pt_fld",
     },
+    "C18": {
+        "level": "other",
+        "engines": [
+            {"kind": "pyse"},
+            {"kind": "cvc", "select": [("partinit", ".*"), ("partition", "init|pre|post|inv_.*"), ("ptsort", "post|lemma|inv_.*|init"), ("ptnghb", "post|inv_.*")]},
+            {"kind": "bounded_c", "which": "c18"},
+        ],
+        "explanation": "Each piece of retained state gets a history contract on the real code: operate, edit the object in place "
+        "(da['dir']=..., da['freq']=..., ds['efth']=...), operate again; the second result is proved equal, for all contents, to the "
+        "specification evaluated on the edited contents (i.e. to what a fresh object gives). AttrDict lookups are proved not to insert keys "
+        "(complete case split) and a statistic call is proved to leave the global attribute table unchanged. Native static buffers: proved "
+        "(C VCs) that partinit establishes/preserves the static invariant (buffer lengths, neighbour table = table(mk, mth)) on both exits and "
+        "that every cell of zp/imi/ind read in partition/ptsort was written earlier in the same call. BOUNDED: second call equals fresh-process "
+        "call for all ordered shape pairs with nk*nth <= 6/8 (plus MSan uninitialised-read check).",
+        "trusted_base": ["engine/pyse proxies keep the accessor instance across in-place edits exactly as xarray's accessor cache does (assumed; replayed concretely on real xarray each run)", "engine/cvc"],
+        "assumptions": ["interleavings are limited to the histories written as contracts (edit coordinate / replace variable / shape change), not all interleavings",
+                        "imo/imd cells of pt_fld: bounded only"],
+        "technique": "contract-based deductive verification of history contracts (invariant stability under in-place edits) + C static-invariant VCs + bounded process-history comparison",
+    },
 }
 
 _PENDING = "not yet brought under contract in the current build round (see DESIGN.md section 8 for the order of work)"
